@@ -44,7 +44,7 @@ def parse_kv(line):
         out[m.group(1)].append(v)
     flat = {}
     for k, vs in out.items():
-        if k in ('subst', 'callrename', 'annotate', 'closure_contract'):
+        if k in ('subst', 'callrename', 'annotate', 'closure_contract', 'static_read'):
             flat[k] = []
             for v in vs:
                 a, b = v.split('`=>`')
@@ -393,6 +393,13 @@ class Extractor:
                 raise LostAnchor('%s: fn %s: closure anchor `%s` not found exactly once' % (rel, kv['fn'], a))
             body = body.replace(a, b)
             rules.append('R2-closure')
+        for a, b in kv.get('static_read', []):
+            # R16: `STATIC.get_or_init(init_fn)` (a lazily initialised static) is replaced by a trusted accessor whose
+            # contract says the static holds what its initialiser returns
+            if a not in body:
+                raise LostAnchor('%s: fn %s: static read `%s` not found' % (rel, kv['fn'], a))
+            body = body.replace(a, b)
+            rules.append('R16')
         if kv.get('desugar_bitand') == 'yes':
             # R13: operator desugaring `a & b` -> `a.bitand(b)` (the language definition of `&`); this Verus
             # build hits an internal error (codegen_select_candidate) on operator syntax over `&T: BitAnd`
@@ -472,7 +479,7 @@ class Extractor:
         return t
 
     # ------------------------------------------------------------------ unit assembly
-    def expand_item(self, name, meta, linemap, out):
+    def expand_item(self, name, meta, linemap, out, is_root=True):
         item = self.items[name]
         lines = item['lines']
         i = 0
@@ -568,8 +575,48 @@ class Extractor:
                                  sha256=hashlib.sha256(txt.encode()).hexdigest(), rules=['R1'], mode=self.mode, contract_clauses=0))
                 self.emit(out, linemap, '    pub ' + txt if not txt.startswith('pub') else '    ' + txt, name, meta[-1]['id'])
                 i += 1
+            elif s.startswith('//@rows '):
+                # R15: the rows of a table written with `iupac!("XYZ")` literals are copied as data: each literal is
+                # replaced by its three nucleotide-set masks (IUPAC letter table: A=8 C=4 G=2 T=1, unions) and
+                # each `Amino::V` by the display letter of that variant (X -> '*').  ASSUMES the iupac! macro
+                # produces the sequence runtime parsing would (property C16, not claimed).
+                kv = parse_kv(s)
+                src = self.src(kv['file'])
+                fns = src.find_fn(kv['fn'], 0, src.limit)
+                if not fns:
+                    raise LostAnchor('%s: fn %s not found' % (kv['file'], kv['fn']))
+                f = fns[0]
+                body = src.text[f['body_open']:f['body_close'] + 1]
+                sig = src.text[f['sig_start']:f['body_open']]
+                setof = {'A': 8, 'C': 4, 'G': 2, 'T': 1, 'R': 10, 'Y': 5, 'S': 6, 'W': 9, 'K': 3, 'M': 12, 'B': 7, 'D': 11, 'H': 13, 'V': 14, 'N': 15, '-': 0}
+                rows = re.findall(r'\(\s*iupac!\(\s*"([^"]*)"\s*\)\.into\(\)\s*,\s*Amino::(\w+)\s*\)', mask_noncode(body) and body)
+                entries = re.findall(r'\(\s*iupac!', body)
+                mlen = re.search(r';\s*(\d+)\s*\]', sig)
+                if not rows or len(rows) != len(entries) or (mlen and int(mlen.group(1)) != len(rows)):
+                    raise LostAnchor('%s: fn %s: table rows not in the expected `(iupac!("..").into(), Amino::V)` form' % (kv['file'], kv['fn']))
+                items = []
+                for pat, var in rows:
+                    if len(pat) != 3 or any(c not in setof for c in pat) or len(var) != 1:
+                        raise Unsupported('R15: table row (%s, %s) outside the rule' % (pat, var))
+                    items.append('(%du8, %du8, %du8, %du8)' % (setof[pat[0]], setof[pat[1]], setof[pat[2]], ord('*') if var == 'X' else ord(var)))
+                txt = ('pub open spec fn %s() -> VSeq<(u8, u8, u8, u8)> {\n    seq![%s]\n}\npub open spec fn %s_len() -> int { %d }'
+                       % (kv['name'], ', '.join(items), kv['name'], len(items)))
+                meta.append(dict(id='%s::fn %s (table data)' % (kv['file'].split('/src/')[-1], kv['fn']), file=kv['file'],
+                                 lines=[src.line_of(f['sig_start']), src.line_of(f['body_close'])],
+                                 sha256=hashlib.sha256(src.text[f['sig_start']:f['body_close'] + 1].encode()).hexdigest(),
+                                 rules=['R1', 'R15'], mode=self.mode, contract_clauses=0))
+                self.emit(out, linemap, txt, name, meta[-1]['id'])
+                i += 1
             elif s.startswith('//@implclose'):
                 self.emit(out, linemap, '}', name, None)
+                i += 1
+            elif s.startswith('//@dep'):
+                # following single line only when this item is a dependency (not a root) of the unit: used to
+                # turn an expensive lemma into `external_body` where it is merely used - it is proved in the
+                # unit where its item is a root (same check run)
+                i += 1
+                if not is_root:
+                    self.emit(out, linemap, lines[i], name, None)
                 i += 1
             elif s.startswith('//@mode '):
                 # //@mode T|R : following single line only in that mode
@@ -631,7 +678,7 @@ class Extractor:
         meta, linemap, out = [], [], []
         names = self.closure(['header'] + list(roots) + ['footer'])
         for n in names:
-            self.expand_item(n, meta, linemap, out)
+            self.expand_item(n, meta, linemap, out, is_root=(n in roots))
         return '\n'.join(out) + '\n', meta, linemap, names
 
 
